@@ -155,8 +155,13 @@ def matches(kind, chars, sym):
     raise AssertionError(kind)
 
 
+class TooBig(Exception):
+    """the subset construction went past the cap: the expression is skipped (counted), never judged"""
+
+
 class DFA:
     """Deterministic automaton over alphabet = chars of the expression + OTHER, with liveness."""
+    CAP = 4000
 
     def __init__(self, ast):
         nfa = NFA()
@@ -192,15 +197,20 @@ class DFA:
                 if T not in seen:
                     seen.add(T)
                     work.append(T)
+                    if len(seen) > self.CAP:
+                        raise TooBig(len(seen))
         # live = can reach an accepting state
         live = set(self.accept)
-        changed = True
-        while changed:
-            changed = False
-            for (S, a), T in self.delta.items():
-                if T in live and S not in live:
+        rev = {}
+        for (S, a), T in self.delta.items():
+            rev.setdefault(T, []).append(S)
+        stack = list(live)
+        while stack:
+            T = stack.pop()
+            for S in rev.get(T, ()):
+                if S not in live:
                     live.add(S)
-                    changed = True
+                    stack.append(S)
         self.live = live
 
     def sym(self, c):
